@@ -23,6 +23,9 @@ type query struct {
 }
 
 func qElemMatches(q, e refmodel.Elem) bool {
+	if q.Name == "*" && len(q.Keys) == 0 {
+		return true
+	}
 	if q.Name != e.Name {
 		return false
 	}
@@ -70,7 +73,8 @@ func modelAnswer(t refmodel.Tree, q refmodel.Path) refmodel.Tree {
 }
 
 var c03Queries = []string{"/a", "/a/b", "/a/bc", "/a/d", "/fo", "/foo", "/cont", "/cont/leaf2", "/cont-x", "/c", "/c/l[k=x]", "/c/l[k=*]", "/c/l[k=x]/v", "/c/l[k=*]/v",
-	"/c/l[k=x]/in[id=1]", "/c/l[k=x]/in[id=*]/w", "/c/m[k1=1][k2=*]", "/c/m[k1=*][k2=2]/v", "/c/m[k1=1][k2=2]", "/c/lx[k=x]", "/c/.../w", "/c/.../v", "/ab", "/goo", "/c/l[k=xy]"}
+	"/c/l[k=x]/in[id=1]", "/c/l[k=x]/in[id=*]/w", "/c/m[k1=1][k2=*]", "/c/m[k1=*][k2=2]/v", "/c/m[k1=1][k2=2]", "/c/lx[k=x]", "/c/.../w", "/c/.../v", "/ab", "/goo", "/c/l[k=xy]",
+	"/c/l", "/c/m", "/c/lx", "/c/l[k=x]/in", "/c/m[k1=1]", "/a/*", "/c/*", "/c/l[k=x]/*", "/*"}
 
 func getQuery(inc *world.Incarnation, target string, q query, enc gnmi.Encoding) (*gnmi.GetResponse, error) {
 	req := &gnmi.GetRequest{Encoding: enc}
